@@ -105,6 +105,57 @@ def jobs(tier, seed):
         rng.shuffle(cx)
         extra_terms = [B.rterm(rng, ev + ["z", "w"], [-1, 0, 0, 1, 2])] if rng.random() < 0.3 else []
         out.append({"kind": "D-chain", "terms": [term] + extra_terms, "ctx": cx, "elim": ev, "refine": True, "simplify": rng.random() < 0.5, "tactics": rng.choice([[4], [4], [1, 4], [4, 5]])})
+    # family E: one term with 2-3 eliminated variables and a context of 2-4 rows coupling them (the domain of
+    # the Kaykobad test of tactics 1/3 and of tactic 5's row selection at degenerate optima). Context signs on the
+    # eliminated variables follow the pattern each tactic requires (same sign as the term for refining, opposite
+    # for relaxing), perturbed now and then; magnitudes decide diagonal dominance.
+    n_kay = 220 if tier == "quick" else 2500
+    for i in range(n_kay):
+        k = 2 if i % 3 else 3
+        ev = ["x", "y", "u"][:k]
+        refine = rng.random() < 0.5
+        term = {v: rng.choice([-3, -2, -1, 1, 2, 3]) for v in ev}
+        term["z"] = rng.choice([-2, -1, 1, 2])
+        nrows = rng.choice([k, k, k + 1, k + 2])
+        cx = []
+        for r in range(nrows):
+            row = {}
+            for v in ev:
+                if rng.random() < 0.25:
+                    continue
+                sgn = (1 if term[v] > 0 else -1) * (1 if refine else -1)
+                if rng.random() < 0.1:
+                    sgn = -sgn
+                row[v] = sgn * rng.choice([0.5, 1, 1, 2, 3])
+            if not row:
+                row[ev[r % k]] = (1 if term[ev[r % k]] > 0 else -1) * (1 if refine else -1)
+            if rng.random() < 0.6:
+                row["w"] = rng.choice([-2, -1, 1, 2])
+            cx.append(row)
+        order = rng.choice([[1], [1], [3], [5], [5], [5, 1], [1, 5], [1, 2, 3, 4, 5], [5, 4, 3, 2, 1]])
+        out.append({"kind": f"E-coupled-{k}", "terms": [term], "ctx": cx, "elim": ev, "refine": refine, "simplify": rng.random() < 0.4, "tactics": order})
+    # family F: three coupled eliminated variables, context rows with unit diagonal and off-diagonal weights around
+    # one half, so that the accumulated Kaykobad dominance sums straddle 1 (the boundary of tactic 1/3's acceptance)
+    n_dom = 400 if tier == "quick" else 3000
+    for i in range(n_dom):
+        ev = ["x", "y", "u"]
+        refine = rng.random() < 0.5
+        term = {v: rng.choice([-1, 1]) for v in ev}
+        term["z"] = rng.choice([-1, 1])
+        cx = []
+        for r, dv in enumerate(ev):
+            row = {}
+            for v in ev:
+                sgn = (1 if term[v] > 0 else -1) * (1 if refine else -1)
+                if v == dv:
+                    row[v] = sgn
+                elif rng.random() < 0.55:
+                    row[v] = sgn * rng.choice([0.4, 0.5, 0.6, 0.6, 0.75])
+            row[rng.choice(["w", "w", "a", "b"])] = rng.choice([-1, 1])
+            cx.append(row)
+        if rng.random() < 0.3:
+            rng.shuffle(cx)
+        out.append({"kind": "F-dominance-3", "terms": [term], "ctx": cx, "elim": ev, "refine": refine, "simplify": False, "tactics": rng.choice([[1], [1], [3], [1, 2, 3, 4, 5]])})
     # family C: seeded random shapes
     n_rand = 150 if tier == "quick" else 2500
     alphabet = BOUNDS[tier]["alphabet"]
